@@ -833,6 +833,19 @@ pub async fn process_multiple_changes(
                             }
                         })?;
                     }
+                    // whatever part of these versions we had buffered is superseded
+                    if check_buffered_meta_to_clear(&tx, change.actor_id, versions.clone())
+                        .map_err(|source| ChangeError::Rusqlite {
+                            source,
+                            actor_id: Some(change.actor_id),
+                            version: Some(end),
+                        })?
+                        && let Err(e) = agent
+                            .tx_clear_buf()
+                            .try_send((change.actor_id, versions.clone()))
+                    {
+                        error!("could not schedule buffered meta clear: {e}");
+                    }
                     KnownDbVersion::Cleared
                 } else {
                     if let Some(seqs) = change.seqs()
@@ -1018,6 +1031,17 @@ pub async fn process_multiple_changes(
                         });
                     } else {
                         debug!(%actor_id, %version, "still have {gaps_count} gaps in partially buffered seqs: {:?}", seqs.gaps(&full_seqs_range).collect::<Vec<_>>());
+                    }
+                } else {
+                    // these versions are now applied or cleared as a whole: a partial we still
+                    // tracked for one of them is stale
+                    let stale: Vec<_> = booked_write
+                        .partials
+                        .range(versions.clone())
+                        .map(|(v, _)| *v)
+                        .collect();
+                    for v in stale {
+                        booked_write.partials.remove(&v);
                     }
                 }
             }
